@@ -244,6 +244,56 @@ pub fn drive_fnnames() -> Vec<String> {
     fails
 }
 
+// ------------------------------------------------------------------------------------------------ parenthesisation (C09, C16)
+// every two-level combination of operators with explicit parentheses, in the display form (en and de) and the stored R1C1 form:
+// parse, print, parse again -> the SAME tree
+pub fn drive_parens() -> Vec<String> {
+    use crate::expressions::parser::stringify::{to_localized_string, to_rc_format};
+    use crate::expressions::parser::Parser;
+    use crate::expressions::types::CellReferenceRC;
+    let mut fails = vec![];
+    let bin = ["+", "-", "*", "/", "^", "&", "=", "<", ":"];
+    let mut formulas: Vec<String> = vec![];
+    for o1 in bin {
+        for o2 in bin {
+            let (a, b, c) = if o1 == ":" || o2 == ":" { ("B1", "B2", "B3") } else { ("1", "2", "3") };
+            formulas.push(format!("({a}{o2}{b}){o1}{c}"));
+            formulas.push(format!("{a}{o1}({b}{o2}{c})"));
+        }
+        let (a, b) = if o1 == ":" { ("B1", "B2") } else { ("1", "2") };
+        formulas.push(format!("-({a}{o1}{b})"));
+        formulas.push(format!("({a}{o1}{b})%"));
+        formulas.push(format!("(-{a}){o1}{b}"));
+        formulas.push(format!("{a}{o1}(-{b})"));
+        formulas.push(format!("({a}%){o1}{b}"));
+        formulas.push(format!("@({a}{o1}{b})"));
+    }
+    for f in ["-(-1)", "-(1%)", "(-1)%", "(1%)%", "-(2^2)", "(-2)^2", "2^(-2)", "SUM((1,5))", "1E16+(-1E16+1)", "(1=2)=(3=4)", "((1+2)*3)^2", "1-(2-(3-4))"] {
+        formulas.push(f.to_string());
+    }
+    for (loc, lang) in [("en", "en"), ("de", "de")] {
+        let (Ok(locale), Ok(language)) = (crate::locale::get_locale(loc), crate::language::get_language(lang)) else { fails.push(format!("no locale {loc}")); continue; };
+        let mut parser = Parser::new(vec!["Sheet1".to_string()], vec![], std::collections::HashMap::new(), locale, language);
+        let cr = CellReferenceRC { sheet: "Sheet1".to_string(), row: 10, column: 10 };
+        for f0 in formulas.iter() {
+            let f = if loc == "de" { f0.replace(",", ";") } else { f0.clone() };
+            let t1 = parser.parse(&f, &cr);
+            if matches!(t1, crate::expressions::parser::Node::ParseErrorKind { .. }) { continue; }
+            let shown = to_localized_string(&t1, &cr, locale, language);
+            let t2 = parser.parse(&shown, &cr);
+            if t1 != t2 { fails.push(format!("{loc} {f} is shown as {shown} which parses to another tree")); }
+            if loc == "en" {
+                let rc = to_rc_format(&t1);
+                parser.set_lexer_mode(crate::expressions::lexer::LexerMode::R1C1);
+                let t3 = parser.parse(&rc, &cr);
+                parser.set_lexer_mode(crate::expressions::lexer::LexerMode::A1);
+                if t1 != t3 { fails.push(format!("{loc} {f} is stored as {rc} which parses to another tree")); }
+            }
+        }
+    }
+    fails
+}
+
 // ------------------------------------------------------------------------------------------------ displacement (C12-C15, C33)
 fn spec_shift(x: i32, p: i32, k: i32) -> Option<i32> {
     if k >= 0 { if x >= p { Some(x + k) } else { Some(x) } } else if x < p { Some(x) } else if x < p - k { None } else { Some(x + k) }
@@ -619,6 +669,7 @@ pub fn run(driver: &str) -> Vec<String> {
         "dates" => drive_dates(),
         "errnames" => drive_errnames(),
         "fnnames" => drive_fnnames(),
+        "parens" => drive_parens(),
         "refshift" => drive_refshift(),
         "finite" => drive_finite(),
         "atomic" => drive_atomic(),
